@@ -100,6 +100,15 @@ def warm_start(
         else:
             state.variables[var] = values
 
+    # The remaining state variables get missing values of the right length
+    # (left empty they get out of step with the particles)
+    for var in state.variables:
+        if var not in wvars:
+            n = pcount if var in state.instance_variables else pid_max
+            is_time = np.dtype(state.dtypes[var]).kind == "M"
+            missing = np.datetime64("NaT") if is_time else np.nan
+            state.variables[var] = np.full(n, missing)
+
     f.close()
 
     # # Instance variables with default
